@@ -16,6 +16,7 @@ import Driver.C05
 import Driver.C04
 import Driver.C09
 import Driver.C20
+import Driver.C06
 open Lean Driver
 
 def dispatch (p : String) (inp impl : Json) : CaseResult :=
@@ -37,6 +38,7 @@ def dispatch (p : String) (inp impl : Json) : CaseResult :=
   | "C04" => C04.handle inp impl
   | "C09" => C09.handle inp impl
   | "C20" => C20.handle inp impl
+  | "C06" => C06.handle inp impl
   | "C07" => C01.handleC07 inp impl
   | "C03" => Signer.handleC03 inp impl
   | _ => { model := Json.null, spec := false, why := "unknown property " ++ p }
